@@ -65,6 +65,18 @@ def from_cov_instance(lead, D, cov_norm, floor):
                     wtop = cells(out['calls'][0][2][0])[li + (D - 1,)]
                     yield 'eigenvalue-above-relative-floor[%s,%d]' % (li, e), sp.implies(
                         sp.ge(wtop, 0.0), sp.ge(lam[li + (e,)], lam[li + (D - 1,)] * floor))
+            if len(out['calls']) == 1:
+                # exact value: the floor of a matrix is relative to the largest raw eigenvalue of the same matrix
+                wr = cells(out['calls'][0][2][0])
+                wmax = wr[li + (0,)]
+                for e2 in range(1, D):
+                    wmax = sp.max(wmax, wr[li + (e2,)])
+                for e in range(D):
+                    if cov_norm == 'eigenvalue':
+                        want = sp.max(wr[li + (e,)] / sp.max(wmax, TINY), floor)
+                    else:
+                        want = sp.max(wr[li + (e,)], wmax * floor)
+                    yield 'eigenvalue-value[%s,%d]' % (li, e), sp.eq(lam[li + (e,)], want)
             if cov_norm == 'eigenvalue':
                 # the largest eigenvalue is one whenever the input has a largest eigenvalue >= tiny:
                 # (otherwise everything is floored)
@@ -337,6 +349,9 @@ def instances(tier):
         out.append(from_cov_instance((), D, 'eigenvalue', 1e-10))
         out.append(from_cov_instance((2,), D, 'eigenvalue', 1e-10))
         out.append(from_cov_instance((), D, False, 1e-10))
+        out.append(from_cov_instance((2,), D, False, 1e-3))
+        out.append(from_cov_instance((2,), D, 'trace', 1e-3))
+        out.append(from_cov_instance((2, 2), D, 'trace', 1e-10))
     for lead, K, N in [((), 2, 2), ((), 3, 2), ((2,), 2, 2)]:
         for wca in ((-1,), -2) + (((-3,), (-3, -1)) if lead else ()):
             for sal in (False, True):
